@@ -188,7 +188,8 @@ class Own(Flow):
         if node is None:
             self.ret_kinds.append('none')
         else:
-            self.ret_kinds.append(self.kind(node.value, st) if node.value is not None else 'none')
+            self.ret_kinds.append(self.kind(node.value, st) if node.value is not None
+                                  and not (isinstance(node.value, ast.Constant) and node.value.value is None) else 'none')
 
     # ---- queries ------------------------------------------------------------
     def state_at(self, node):
